@@ -99,11 +99,11 @@ fn play(cfg: &WorldCfg, sets: &[[AssetInfo; 2]], want_desc: bool, key: u64) -> C
         if let Some((d, dec)) = fw.model.denoms.iter().next().map(|(d, v)| (d.clone(), *v)) {
             let rec = fw.w.exec(Step {
                 sender: owner.clone(),
-                call: Call::Factory { msg: haloswap::factory::ExecuteMsg::AddNativeTokenDecimals { denom: d.clone(), decimals: (dec + 1) % 19 } },
+                call: Call::Factory { msg: haloswap::factory::ExecuteMsg::AddNativeTokenDecimals { denom: d.clone(), decimals: ((dec as u16 + 1) % 19) as u8 } },
                 funds: vec![],
             });
             if rec.outcome.is_ok() {
-                fw.model.denoms.insert(d, (dec + 1) % 19);
+                fw.model.denoms.insert(d, ((dec as u16 + 1) % 19) as u8);
                 classes.push("adm:denom-re-registered");
             }
         }
